@@ -120,4 +120,52 @@ Proof.
   symmetry. apply s_out; assumption.
 Qed.
 
+(* a sufficient condition on the two vectors in front of the search: wherever the spaces differ, the token is not the first one and
+   the invariant of (previous token type, token type) is MustBreak whatever the conditional-directive flag — e.g. the previous token is
+   a `//` comment and the token is not an Inline comment *)
+Definition differ_only_after_breakers (l l' : list ftoken) : Prop :=
+  forall g p p', nth_error l g = Some p -> nth_error l' g = Some p' -> f_sp (snd p') <> f_sp (snd p) ->
+  exists h pp, g = S h /\ nth_error l h = Some pp
+    /\ forall cd, Requirements.formatting_invariant (Some (t_ty (fst pp))) (Some (t_ty (fst p))) cd = Some DR_MustBreak.
+
+Lemma must_break_of_breakers l l' lines : length l' = length l -> differ_only_after_breakers l l' ->
+  differing_are_must_break (map tokinfo_of l) (map tokinfo_of l') lines.
+Proof.
+  intros Hlen H lv r Hlv Hr Hne. destruct (mk_lviews_inv _ _ lv r Hlv Hr) as (cd & ->). unfold sp_at in Hne. rewrite !nth_error_map in *.
+  set (g := N.to_nat (tr_gidx r)) in *.
+  destruct (nth_error l g) as [p|] eqn:E.
+  - destruct (nth_error l' g) as [p'|] eqn:E'; [|apply nth_error_None in E'; assert (g < length l)%nat by (apply nth_error_Some; congruence); lia].
+    cbn [option_map] in Hne. unfold tokinfo_of in Hne. cbn [ti_sp] in Hne.
+    destruct (H g p p' E E' (fun e => Hne (eq_sym e))) as (h & pp & Eg & Eh & Hinv).
+    assert (Ez : (tr_gidx r =? 0)%N = false) by (apply N.eqb_neq; intros Hz; subst g; rewrite Hz in Eg; discriminate Eg). rewrite Ez.
+    replace (N.to_nat (tr_gidx r - 1)) with h by (subst g; lia). rewrite Eh. cbn [option_map]. unfold tokinfo_of. cbn [ti_ty]. apply Hinv.
+  - exfalso. apply Hne. apply nth_error_None in E. assert (E' : nth_error l' g = None) by (apply nth_error_None; lia). rewrite E'. reflexivity.
+Qed.
+
+Definition idem_hyp_breakers alnum cfg (segs segs2 : list seg) : Prop :=
+  idem_hyp6 alnum cfg segs segs2 /\ differ_only_after_breakers (fm_l4 alnum segs) (fm_l4 alnum segs2).
+
+Theorem format_idempotent_breakers alnum cfg s out :
+  format_model alnum cfg s = inl out ->
+  (forall segs, lex_segments s = Some segs ->
+     exists segs2, lex_segments (fm_out alnum cfg segs) = Some segs2 /\ idem_hyp_breakers alnum cfg segs segs2) ->
+  format_model alnum cfg out = inl out.
+Proof.
+  intros H Hh. apply (format_idempotent_mb alnum cfg s out H). intros segs Hl. destruct (Hh segs Hl) as (segs2 & Hl2 & Hyp & Hb).
+  exists segs2. split; [exact Hl2|]. split; [exact Hyp|]. apply must_break_of_breakers; [|exact Hb].
+  rewrite !fm_l4_length. exact (i_len alnum cfg segs segs2 Hyp).
+Qed.
+
+(* the case asked for: the spaces may differ at a token that follows a `//` comment and is not an Inline comment *)
+Lemma breaker_after_line_comment k ty cd :
+  (k = CoK_InlineLine \/ k = CoK_IndividualLine) -> is_inline_comment ty = false ->
+  Requirements.formatting_invariant (Some (TT_Comment k)) (Some ty) cd = Some DR_MustBreak.
+Proof.
+  intros Hk Hi. destruct Hk as [-> | ->]; destruct ty; try reflexivity;
+    repeat match goal with x : CommentKind |- _ => destruct x | x : TextLiteralKind |- _ => destruct x
+                      | x : KeywordKind |- _ => destruct x | x : OperatorKind |- _ => destruct x | x : NumberLiteralKind |- _ => destruct x
+                      | x : ConditionalDirectiveKind |- _ => destruct x end; try reflexivity; discriminate Hi.
+Qed.
+
 Print Assumptions format_idempotent_mb.
+Print Assumptions format_idempotent_breakers.
